@@ -9,25 +9,25 @@ R3 = "independent sub-agent given only the property text and a scratch worktree 
 NOTES = {
     "C19-design-space-size-span": ("C19", "incremental-font-transfer",
         "two invalidating entries that tie on code points and features, one of them with two disjoint design-space segments whose span exceeds the other's total length",
-        "PENDING", "C19"),
+        "missed by the families of the time (one segment per entry and axis; the random tables rarely produce the tie); caught after adding the family MC_IFTEnumSeg - two invalidating entries that tie on code points and features with one, two or three (disjoint) segments each: the selected group differs from the specification's", "C19"),
     "C19-string-id-leading-zeros-stripped": ("C19", "incremental-font-transfer",
         "a mapping with id string data in which an id string starts with a zero byte",
-        "PENDING", "C19"),
+        "C19 quick: the string-id members of the UriTemplate.tla family (ids 00, 00 01, ...; added while the agents worked) expand to other URIs than the specification's", "C19"),
     "C18-ignored-tables-marked-processed": ("C18", "incremental-font-transfer",
         "a glyph keyed patch whose table list names a table it does not apply to and that exists in the font",
-        "PENDING", "C18"),
+        "missed at first (no catalogue patch listed a table that glyph keyed patches do not apply to); caught after every other glyph keyed patch also lists 'tab1': the table disappears from the patched font (frame condition of IFTApply.tla)", "C18"),
     "C18-zero-length-tables-not-copied": ("C18", "incremental-font-transfer",
         "a base font with a zero-length table that the patch does not name",
-        "PENDING", "C18"),
+        "missed at first (every table of the base font had content); caught after adding an empty table 'tab0' to the catalogue's base font: it disappears from every patched font", "C18"),
     "C01-callgsubr-depth-not-counted": ("C01", "read-fonts",
         "a cycle (or a chain longer than the nesting limit) made of global subroutine calls only",
-        "PENDING", "C01"),
+        "C01 quick: the CharstringMC!Calls members made of global subroutine calls only (chains of 11 / 12, local -> global -> global ...) end the child process or pass where the model refuses for nesting depth", "C01"),
     "C01-fdselect-partition-point": ("C01", "read-fonts",
         "an FDSelect of format 3 / 4 whose first range starts after glyph 0 (queried below it), or with no range",
-        "PENDING", "C01"),
+        "missed at first (FDSelect was reached through the corpus CFF fonts only); caught after adding FdSelect.tla and replaying its 550 tables (no range, first range after glyph 0, unsorted ranges) on FdSelect::font_index: index out of bounds", "C01"),
     "C17-component-gid-high-byte-and": ("C17", "klippa",
         "a kept composite whose component is renumbered to an id of 256 or more with a bit in the high byte that the old id lacks (large subset without retained ids)",
-        "PENDING", "C17"),
+        "caught by the thorough tier's almost-everything requests without retained ids; the quick tier missed it until those requests were run there too: composites draw other components than in the original (Roboto, Ubuntu, Comfortaa, BungeeColor, IndicTestHowrah)", "C17"),
 }
 
 bad = 0
